@@ -443,4 +443,187 @@ theorem roundDecimal_exact (m : Nat) (q : Int) (h : PosCanonical m q) :
     have g2 : ¬ (q + (numDigits (m * 5 ^ j) : Int) < -330) := by omega
     simp only [h0, g1, g2, if_false, hdr]
 
+/-! ### every rounding result is a value of the format -/
+
+theorem divRound_ge (a n d : Nat) (hd : 0 < d) (h : a * d ≤ n) : a ≤ divRoundHalfEven n d := by
+  have hq : a ≤ n / d := (Nat.le_div_iff_mul_le hd).mpr h
+  unfold divRoundHalfEven
+  simp only
+  split
+  · exact hq
+  · split
+    · omega
+    · split <;> omega
+
+theorem divRound_le (b n d : Nat) (hd : 0 < d) (h : n ≤ b * d) : divRoundHalfEven n d ≤ b := by
+  have hq : n / d ≤ b := by
+    have := Nat.div_le_div_right (c := d) h
+    rwa [Nat.mul_div_cancel b hd] at this
+  unfold divRoundHalfEven
+  simp only
+  by_cases heq : n / d = b
+  · -- then n = b * d exactly, the remainder is zero
+    have h1 : n / d * d ≤ n := Nat.div_mul_le_self n d
+    rw [heq] at h1
+    have hn : n = b * d := by omega
+    have hr : n % d = 0 := by rw [hn]; exact Nat.mul_mod_left b d
+    simp [hr, hd, heq]
+  · have : n / d + 1 ≤ b := by omega
+    split
+    · omega
+    · split
+      · omega
+      · split <;> omega
+
+/-- `2^j ≤ round(n / (d 2^q))` when `2^(q+j) ≤ n/d` -/
+theorem scaledRound_ge (n d : Nat) (q : Int) (j : Nat) (hd : 0 < d) (h : Pow2Le (q + j) n d) :
+    2 ^ j ≤ scaledRound n d q := by
+  unfold Pow2Le at h
+  unfold scaledRound
+  by_cases hq : q ≥ 0
+  · rw [if_pos hq]
+    apply divRound_ge _ _ _ (Nat.mul_pos hd (Nat.pow_pos (by omega)))
+    have e1 : (q + (j : Int)).toNat = q.toNat + j := by omega
+    have e2 : (-(q + (j : Int))).toNat = 0 := by omega
+    rw [e1, e2, Nat.pow_add] at h
+    have : 2 ^ j * (d * 2 ^ q.toNat) = d * (2 ^ q.toNat * 2 ^ j) := by grind
+    rw [this]; simpa using h
+  · rw [if_neg hq]
+    apply divRound_ge _ _ _ hd
+    by_cases hqj : q + (j : Int) ≥ 0
+    · have e1 : (q + (j : Int)).toNat + (-q).toNat = j := by omega
+      have e2 : (-(q + (j : Int))).toNat = 0 := by omega
+      rw [e2] at h
+      have h' := Nat.mul_le_mul_right (2 ^ (-q).toNat) h
+      have : d * 2 ^ (q + (j : Int)).toNat * 2 ^ (-q).toNat = 2 ^ j * d := by
+        rw [Nat.mul_assoc, ← Nat.pow_add, e1]; grind
+      rw [this] at h'
+      simpa using h'
+    · have e1 : (q + (j : Int)).toNat = 0 := by omega
+      have e2 : (-(q + (j : Int))).toNat + j = (-q).toNat := by omega
+      rw [e1] at h
+      have h' := Nat.mul_le_mul_right (2 ^ j) h
+      have : n * 2 ^ (-(q + (j : Int))).toNat * 2 ^ j = n * 2 ^ (-q).toNat := by
+        rw [Nat.mul_assoc, ← Nat.pow_add, e2]
+      rw [this] at h'
+      have : d * 2 ^ 0 * 2 ^ j = 2 ^ j * d := by grind
+      rw [this] at h'
+      exact h'
+
+/-- `round(n / (d 2^q)) ≤ 2^j` when `n/d < 2^(q+j)` -/
+theorem scaledRound_le (n d : Nat) (q : Int) (j : Nat) (hd : 0 < d) (h : ¬ Pow2Le (q + j) n d) :
+    scaledRound n d q ≤ 2 ^ j := by
+  unfold Pow2Le at h
+  unfold scaledRound
+  by_cases hq : q ≥ 0
+  · rw [if_pos hq]
+    apply divRound_le _ _ _ (Nat.mul_pos hd (Nat.pow_pos (by omega)))
+    have e1 : (q + (j : Int)).toNat = q.toNat + j := by omega
+    have e2 : (-(q + (j : Int))).toNat = 0 := by omega
+    rw [e1, e2, Nat.pow_add] at h
+    have : 2 ^ j * (d * 2 ^ q.toNat) = d * (2 ^ q.toNat * 2 ^ j) := by grind
+    rw [this]
+    simp at h; omega
+  · rw [if_neg hq]
+    apply divRound_le _ _ _ hd
+    by_cases hqj : q + (j : Int) ≥ 0
+    · have e1 : (q + (j : Int)).toNat + (-q).toNat = j := by omega
+      have e2 : (-(q + (j : Int))).toNat = 0 := by omega
+      rw [e2] at h
+      have hlt : n * 2 ^ 0 < d * 2 ^ (q + (j : Int)).toNat := by omega
+      have h' := Nat.mul_lt_mul_of_pos_right hlt (Nat.pow_pos (n := (-q).toNat) (show 0 < 2 by omega))
+      have : d * 2 ^ (q + (j : Int)).toNat * 2 ^ (-q).toNat = 2 ^ j * d := by
+        rw [Nat.mul_assoc, ← Nat.pow_add, e1]; grind
+      rw [this] at h'
+      simp at h'; omega
+    · have e1 : (q + (j : Int)).toNat = 0 := by omega
+      have e2 : (-(q + (j : Int))).toNat + j = (-q).toNat := by omega
+      rw [e1] at h
+      have hlt : n * 2 ^ (-(q + (j : Int))).toNat < d * 2 ^ 0 := by omega
+      have h' := Nat.mul_lt_mul_of_pos_right hlt (Nat.pow_pos (n := j) (show 0 < 2 by omega))
+      have : n * 2 ^ (-(q + (j : Int))).toNat * 2 ^ j = n * 2 ^ (-q).toNat := by
+        rw [Nat.mul_assoc, ← Nat.pow_add, e2]
+      rw [this] at h'
+      have : d * 2 ^ 0 * 2 ^ j = 2 ^ j * d := by grind
+      rw [this] at h'
+      omega
+
+theorem roundRatio_canonical (n d : Nat) (hd : 0 < d) (neg : Bool) (m : Nat) (q : Int)
+    (h : roundRatio n d = some (m, q)) : F64.Canonical (.fin neg m q) := by
+  unfold roundRatio at h
+  by_cases hn : n = 0
+  · simp [hn] at h
+    obtain ⟨rfl, rfl⟩ := h
+    exact Or.inl ⟨rfl, rfl⟩
+  · have hnpos : 0 < n := by omega
+    obtain ⟨s1, s2⟩ := floorLog2Ratio_spec n d hnpos hd
+    simp only [hn, if_false] at h
+    generalize floorLog2Ratio n d = e at *
+    by_cases hcase : e - 52 ≥ -1074
+    · -- normal range: the significand lies in [2^52, 2^53]
+      have hq0 : max (e - 52) (-1074) = e - 52 := by omega
+      rw [hq0] at h
+      have e52 : e - 52 + ((52 : Nat) : Int) = e := by omega
+      have e53 : e - 52 + ((53 : Nat) : Int) = e + 1 := by omega
+      have hlo : 2 ^ 52 ≤ scaledRound n d (e - 52) := by
+        apply scaledRound_ge n d (e - 52) 52 hd
+        rw [e52]; exact s1
+      have hhi : scaledRound n d (e - 52) ≤ 2 ^ 53 := by
+        apply scaledRound_le n d (e - 52) 53 hd
+        rw [e53]; exact s2
+      generalize scaledRound n d (e - 52) = m0 at *
+      by_cases hc : m0 = 2 ^ 53
+      · simp only [hc, if_true] at h
+        split at h
+        · cases h
+        · rename_i hq
+          simp only [Option.some.injEq, Prod.mk.injEq] at h
+          obtain ⟨rfl, rfl⟩ := h
+          exact Or.inr (Or.inl ⟨Nat.le_refl _, by decide, by omega, by omega⟩)
+      · simp only [hc, if_false] at h
+        split at h
+        · cases h
+        · rename_i hq
+          simp only [Option.some.injEq, Prod.mk.injEq] at h
+          obtain ⟨rfl, rfl⟩ := h
+          exact Or.inr (Or.inl ⟨hlo, by omega, by omega, by omega⟩)
+    · -- subnormal range: the significand is at most 2^52
+      have hq0 : max (e - 52) (-1074) = -1074 := by omega
+      rw [hq0] at h
+      have hnot : ¬ Pow2Le (-1074 + ((52 : Nat) : Int)) n d := by
+        intro hp
+        exact s2 (pow2Le_mono (e + 1) _ n d (by omega) hp)
+      have hhi : scaledRound n d (-1074) ≤ 2 ^ 52 := scaledRound_le n d (-1074) 52 hd hnot
+      generalize scaledRound n d (-1074) = m0 at *
+      have hc : ¬ m0 = 2 ^ 53 := by
+        have : (2 : Nat) ^ 52 < 2 ^ 53 := by decide
+        omega
+      simp only [hc, if_false] at h
+      split at h
+      · cases h
+      · simp only [Option.some.injEq, Prod.mk.injEq] at h
+        obtain ⟨rfl, rfl⟩ := h
+        by_cases hz : m0 = 0
+        · exact Or.inl ⟨hz, rfl⟩
+        · by_cases h52 : m0 = 2 ^ 52
+          · exact Or.inr (Or.inl ⟨by omega, by rw [h52]; decide, by omega, by omega⟩)
+          · exact Or.inr (Or.inr ⟨by omega, by omega, rfl⟩)
+
+/-- **`float()` only produces values of the format** -/
+theorem roundDecimal_canonical (neg : Bool) (c : Nat) (x : Int) : (roundDecimal neg c x).Canonical := by
+  unfold roundDecimal
+  split
+  · exact Or.inl ⟨rfl, rfl⟩
+  · rename_i hc
+    split
+    · trivial
+    · split
+      · exact Or.inl ⟨rfl, rfl⟩
+      · have hpos := decRatio_pos c x (by omega)
+        cases hr : roundRatio (decRatio c x).1 (decRatio c x).2 with
+        | none => trivial
+        | some r =>
+          obtain ⟨m, q⟩ := r
+          exact roundRatio_canonical _ _ hpos.2 neg m q hr
+
 end Xs.Conv
